@@ -119,7 +119,7 @@ def run(prog: Program, rep: Report, tier: str) -> None:
     n_checked = 0
     for o in raises:
         cde = B.ev_calls(o, ".create_datagram_endpoint")
-        if o.exc_name != "OSError":
+        if o.exc_name not in ("OSError", "asyncio.CancelledError", "CancelledError"):
             continue
         acquired = [ce.result[1][0] for ce in cde if isinstance(ce.result, tuple) and ce.result[0] == "tuple"]
         # the failing call itself left no event (it raised); earlier ones did
@@ -135,7 +135,7 @@ def run(prog: Program, rep: Report, tier: str) -> None:
                 closing.add(e.target[: -len(".is_closing")])
         for tr in acquired:
             if not (T.show(tr) in closed or T.show(tr) in closing):
-                bad4 = (f"start() binds the configured ports one after another; when binding a later port raises OSError (address in use), the transport {T.show(tr)} "
+                bad4 = (f"start() binds the configured ports one after another; when binding a later port raises {o.exc_name} ({'address in use' if o.exc_name == 'OSError' else 'the task is cancelled - not an Exception, let alone an OSError'}), the transport {T.show(tr)} "
                         f"acquired for an earlier port is neither closed nor is stop() run before the exception leaves start(): the earlier ports stay bound although start failed "
                         f"(`async with` does not call __aexit__ when __aenter__ raises)")
         flag_true = [e for e in o.state.events if e.kind == "store" and e.target == "self._is_running" and e.args == (c(True),)]
